@@ -61,28 +61,27 @@ only inside `1 s ≤ initial ≤ max ≤ 5 min` (zero means the default); in
 particular a maximum above the ceiling is rejected, never clamped upwards. -/
 theorem newCfg_valid (size i m : Int) (c : Cfg) (h : newCfg size i m = .ok c) :
     c.Valid ∧ 0 < size ∧
-    (c.initial : Int) = (if i = 0 then (defaultInitial : Int) else i) ∧
-    (c.max : Int) = (if m = 0 then (defaultMax : Int) else m) := by
+    (c.initial : Int) = orDefault i defaultInitial ∧ (c.max : Int) = orDefault m defaultMax := by
   unfold newCfg at h
-  simp only at h
+  generalize orDefault i defaultInitial = i' at h ⊢
+  generalize orDefault m defaultMax = m' at h ⊢
   by_cases hs : size ≤ 0
   · simp [hs] at h
-  · simp only [hs, if_false] at h
-    split at h
-    · cases h
-    · split at h
-      · cases h
-      · split at h
-        · cases h
-        · rename_i h1 h2 h3
-          cases h
+  · by_cases h1 : i' < (second : Int)
+    · simp [hs, h1] at h
+    · by_cases h2 : m' < i'
+      · simp [hs, h1, h2] at h
+      · by_cases h3 : m' > (ceiling : Int)
+        · simp [hs, h1, h2, h3] at h
+        · simp only [hs, h1, h2, h3, if_false, Except.ok.injEq] at h
+          subst h
           unfold Cfg.Valid
           simp only
-          unfold second ceiling defaultInitial defaultMax at *
-          refine ⟨⟨?_, ?_, ?_⟩, by omega, ?_, ?_⟩ <;> split at * <;> omega
+          unfold second ceiling at *
+          refine ⟨⟨?_, ?_, ?_⟩, by omega, ?_, ?_⟩ <;> omega
 
 /-- defaults are a valid configuration (5 s … 5 min). -/
-theorem default_cfg_valid : newCfg 4096 0 0 = .ok ⟨defaultInitial, defaultMax⟩ := by decide
+theorem default_cfg_valid : newCfg 4096 0 0 = .ok ⟨defaultInitial, defaultMax⟩ := by rfl
 
 /-! ## facts regenerated from the compiled tree (one-directional) -/
 
@@ -297,17 +296,16 @@ theorem record_backoff_steps (c : Cfg) (hv : c.Valid) (t : Table) (now : Int) (h
       simp only
       have hcur := henv cur.streak
       by_cases hq : now - cur.retryAfter ≥ (c.max : Int)
-      · simp only [hq, if_true]
-        rw [hb1]
-        exact ⟨by omega, rfl, by omega, by omega, by omega, fun _ => ⟨rfl, rfl⟩⟩
-      · simp only [hq, if_false]
+      · rw [if_pos hq, hb1]
+        exact ⟨by omega, trivial, by omega, by omega, by omega, fun _ => ⟨rfl, rfl⟩⟩
+      · rw [if_neg hq]
         by_cases hlt : cur.streak < maxStreak
-        · simp only [hlt, if_true]
+        · rw [if_pos hlt]
           have := hdbl cur.streak
           have := henv (cur.streak + 1)
-          exact ⟨by omega, rfl, by omega, by omega, by omega, fun hh => absurd hh hq⟩
-        · simp only [hlt, if_false]
-          exact ⟨by omega, rfl, by omega, by omega, by omega, fun hh => absurd hh hq⟩
+          exact ⟨by omega, trivial, by omega, by omega, by omega, fun hh => absurd hh hq⟩
+        · rw [if_neg hlt]
+          exact ⟨by omega, trivial, by omega, by omega, by omega, fun hh => absurd hh hq⟩
 
 /-! ## a useful answer resets the backoff -/
 
@@ -438,17 +436,13 @@ def Failed : Outcome → Prop
 theorem pick_poisoned (ctx : Ctx) (ze nsl : Bool) (resp : List Nat) (config : Nat) (fatal : List Cause)
     (hbad : nxdomain ∈ resp ∨ Cause.attemptLimit ∈ fatal) :
     resolveRecordsZone ctx ze nsl (pickFallback resp config fatal) = false := by
-  unfold pickFallback
-  by_cases hw : fatal.contains .workLimit = true
-  · simp [hw, resolveRecordsZone, handleLookupErrorRecords]
-  · simp only [hw, if_false]
-    by_cases hn : resp.contains nxdomain = true
-    · simp [hn, resolveRecordsZone, failureRcode]
-    · simp only [hn, if_false]
-      rcases hbad with hb | hb
-      · exact absurd (List.contains_iff_mem.mpr hb) hn
-      · have : fatal.contains .attemptLimit = true := List.contains_iff_mem.mpr hb
-        simp [this, resolveRecordsZone, handleLookupErrorRecords]
+  by_cases hw : Cause.workLimit ∈ fatal
+  · simp [pickFallback, hw, resolveRecordsZone, handleLookupErrorRecords]
+  · by_cases hn : nxdomain ∈ resp
+    · simp [pickFallback, hw, hn, resolveRecordsZone, failureRcode]
+    · rcases hbad with hb | hb
+      · exact absurd hb hn
+      · simp [pickFallback, hw, hn, hb, resolveRecordsZone, handleLookupErrorRecords]
 
 theorem fold_poisoned (ctx : Ctx) (ze nsl lowLevel : Bool) : ∀ (outs : List Outcome) (resp : List Nat) (config : Nat)
     (fatal : List Cause), (nxdomain ∈ resp ∨ Cause.attemptLimit ∈ fatal) →
